@@ -16,19 +16,31 @@ LEAN_TARGETS = ["LyModel.Props.C08"]
 AUDIT = "Audit/C08.lean"
 ASSUMPTIONS = [
     "XPath numbers: the engine is parametric in the number type; the driver instantiates IEEE doubles, libyang uses x87 long double — generated numbers "
-    "stay on small integers and dyadic fractions where both are exact (DESIGN §3)",
+    "stay on small integers and dyadic fractions where both are exact (DESIGN §3); results are compared in thousandths, NaN/±Inf as tokens",
     "string operands compared with a node of a non-string type are canonised by libyang first (set_comp_canonize, deliberate): generated strings are "
-    "never valid non-canonical lexical forms of int32/bits/identityref, so this is the identity on the generated fragment",
+    "never valid non-canonical lexical forms of int32/bits/identityref and every inner node of a generated tree has >= 2 terminal descendants, so this "
+    "is the identity on the generated fragment",
     "the XML view handed to the engine is libyang's own dump of the parsed tree (module, name, canonical value per node in document order); "
     "parsing, implicit nodes and ordering are not under test here",
+    "name() returns `module:name` (LY_VALUE_JSON prefixes); an unprefixed name test matches every module (names defined by two modules under one "
+    "parent are always prefixed on the child axis, see F58); the attribute axis is outside the generated fragment (F62)",
+    "a deviation recorded as a known finding is switched on in the engine (LyModel.XPath.Quirks) so that everything around it is still compared; "
+    "each input on which the switched-on engine differs from the XPath 1.0 engine is reported as a failure of the property and attributed to the "
+    "switches that explain it; when a finding's status becomes `fixed` its switch goes off and the XPath 1.0 behaviour is demanded again",
+    "generator rules that keep the random streams off not-mirrored findings: `//` only on sets that are antichains and never in front of node()/text() "
+    "(F57, F60); numeric predicates and ceiling() arguments are finite by construction (F37); bit-is-set gets a path ending in a name test (F32); "
+    "the last top-level node of a generated tree has a child (F59).  Each of these findings has explicit witnesses run on every invocation",
+    "corrections made to the machinery while building it (no claim was loosened): bare `/` is parenthesised when it is an operand (REC §3.7 lexing); "
+    "`.` is evaluated as the step self::node(); value-aware predicates use integer literals only for digit strings; batches of 12 trees",
 ]
-TRUSTED = ["harness/api_xpath.c, harness/wb_xpath.c", "python AST -> XPath text / prefix form renderers in tools/checks/xpcomp.py"]
+TRUSTED = ["harness/api_xpath.c, harness/wb_xpath.c", "python AST -> XPath text / prefix form renderers in tools/checks/xpcomp.py",
+           "LyModel/XPath/FloatNum.lean (Float instance of the number type, driver only)"]
 
 HARNESS = "api_xpath"
 COMP = "xpath"
-ALL = 4095
+ALL = 8191
 # Quirks bit -> finding
-QBITS = {0: "F38", 1: "F39", 2: "F40", 3: "F41", 4: "F50", 5: "F51", 6: "F52", 7: "F53", 8: "F54", 9: "F55", 10: "F56", 11: "F61"}
+QBITS = {0: "F38", 1: "F39", 2: "F40", 3: "F41", 4: "F50", 5: "F51", 6: "F52", 7: "F53", 8: "F54", 9: "F55", 10: "F56", 11: "F61", 12: "F64"}
 
 
 def classify(component, what, case):
@@ -218,6 +230,23 @@ def nodeset_law(cx, results):
                 cx.fail(COMP, "node-set not in document order", {"line": shorten(l), "impl": a, "expr": unhex(l.split()[4]).decode()})
 
 
+def corpus(cx):
+    """hand seeds and minimised past disagreements (corpus/xpath/*.json), run first"""
+    import json
+    from vlib import paths
+    d = os.path.join(paths.CORPUS, "xpath")
+    by_xml = {}
+    for f in sorted(os.listdir(d)) if os.path.isdir(d) else []:
+        if not f.endswith(".json"): continue
+        for c in json.load(open(os.path.join(d, f))).get("cases", []):
+            e = X.ast_from_json(c["ast"])
+            by_xml.setdefault(c["xml"], []).append(("eval", c["ctx"], e, {"text": X.render(e)}))
+    if by_xml:
+        results, dumps = run_groups(cx, list(by_xml.items()), "corpus")
+        nodeset_law(cx, results)
+        rec_law(cx, results)
+
+
 def gen_groups(cx, ntrees, nexpr, depth):
     groups = []
     for ti in range(ntrees):
@@ -231,6 +260,7 @@ def run(cx):
     cx.rule("xpath: fixed schema set (2 modules, lists with 1-2 keys, leaf-lists, nested containers, choice, augment; parents with <4 and >=4 children) x "
             "random trees x random context nodes x type-directed expressions of fragment X1 (12 axes, name/*/node()/text() tests, nested predicates, "
             "operators, core function library); non-trivial = distinct (tree, context, expression) with a non-error result")
+    corpus(cx)
     ntrees, nexpr, depth = cx.n(36, 220), cx.n(140, 400), cx.n(3, 4)
     base = gen_groups(cx, ntrees, nexpr, depth)
     # first obtain node counts so that contexts can be chosen: one load pass
